@@ -102,7 +102,7 @@ pub fn run(args: &Args) -> i32 {
         }
         eval(&id, &h, &[name], &mut rep, args);
     }
-    let n = args.scale(8_000, 120_000);
+    let n = args.scale(240_000, 4_000_000);
     for i in 0..n {
         if !args.mine(i) {
             continue;
